@@ -181,7 +181,7 @@ func genC19(c *Cfg, emit func([]string)) {
 		if c.Rng.Intn(3) == 0 {
 			h = append(h, "setlimits "+pick("buyToken", "buyBack", "nope")+" "+pick("USD", "EUR")+" "+pick("0", "10", "100", "1000")+" "+pick("0", "50", "100", "5"))
 		}
-		if c.Rng.Intn(6) > 0 {
+		if c.Rng.Intn(12) > 0 {
 			h = append(h, "setfeeaddr "+pick("F", "F", "F", "u3", "u1"))
 		}
 		if c.Rng.Intn(8) > 0 {
@@ -200,10 +200,14 @@ func genC19(c *Cfg, emit func([]string)) {
 				h = append(h, "fund "+u+" "+base)
 			}
 			if c.Rng.Intn(2) == 0 {
-				h = append(h, "fundalw "+u+" "+pick("USD", "EUR")+" "+pick("0", "1", "5", "1000", "100000000000"))
+				h = append(h, "fundalw "+u+" "+pick("USD", "EUR")+" "+pick("0", "1", "5", "1000", "100000000000", "100000000000"))
 			}
 		}
-		h = append(h, "fundalw I USD "+pick("0", "1000", "100000000000"), "bal")
+		h = append(h, "fundalw I USD "+pick("0", "1000", "100000000000"))
+		if c.Rng.Intn(4) > 0 {
+			h = append(h, "fund I "+pick("100", "1000", "1000000"))
+		}
+		h = append(h, "bal")
 		// --- break points of the fee: amounts around floor*10^8/share and cap*10^8/share
 		var amts []string
 		amts = append(amts, "1", "2", "7", "100", "999", "1000", "1001", base)
